@@ -187,6 +187,17 @@ func c0103Run(prop string, oracles []procOracle, nontriv func(*PDrv) bool) func(
 		var jobs []procJob
 		jobs = append(jobs, jobsFor(procLattice(fps, "frame", ""), []string{"1", "0"}, nil, L, 0)...)
 		jobs = append(jobs, jobsFor(procLattice(fps, "raw", "day"), []string{"1", "0"}, devRecorder, Ld, D)...)
+		if !r.Thorough() {
+			// the quick lattice is fps 1; a few fps 2/3 configurations keep "seconds x fps" arithmetic observable
+			var extra []PCfg
+			for _, c := range []PCfg{{FPS: 2, Preview: 1, Trigger: 1, Min: 1, Max: 2}, {FPS: 3, Preview: 1, Trigger: 2, Min: 1, Max: 1}, {FPS: 2, Preview: 2, Trigger: 0, Min: 0, Max: 1}, {FPS: 3, Preview: 0, Trigger: 1, Min: 1, Max: 2}} {
+				c.Via, c.Window = "raw", "day"
+				extra = append(extra, c)
+			}
+			jobs = append(jobs, jobsFor(extra, []string{"1", "0"}, devRecorder, Ld, 1)...)
+			jobs = append(jobs, jobsFor(extra, []string{"1", "0"}, nil, L+2, 0)...)
+			r.Bounds["extra_fps_configurations"] = len(extra)
+		}
 		r.Bounds["configurations"] = len(procLattice(fps, "raw", "day"))
 		// fixpoint mode: streams of any length for every configuration of the lattice
 		capStates := 60000
@@ -214,7 +225,7 @@ func c04Run(r *ev.Run) {
 	L, D := 8, 2
 	fps := []int{1}
 	if r.Thorough() {
-		L, D = 9, 3
+		L, D = 9, 2 // (depth 9 with 3 deviations is ~10^9 executions per window; 3 deviations are explored at depth 7 below)
 		fps = []int{1, 2}
 	}
 	// reduced lattice: the gate logic depends on trigger-frames and on re-arming after a recording
@@ -252,6 +263,9 @@ func c04Run(r *ev.Run) {
 			cs = append(cs, c)
 		}
 		jobs = append(jobs, jobsFor(cs, []string{"1", "0"}, dev, L, D)...)
+		if r.Thorough() {
+			jobs = append(jobs, jobsFor(cs, []string{"1", "0"}, dev, 7, 3)...)
+		}
 	}
 	for _, win := range []string{"day", "night", ""} {
 		dev := dayDev
@@ -331,6 +345,8 @@ func c03Run(r *ev.Run) {
 		fps = []int{1, 2, 3}
 		Ld = 12
 	}
+	// (storage write failures are deliberately NOT deviations here: C03 does not quantify over faults, and the
+	// unchanged code itself ends a recording after one frame when a pre-trigger write fails - see DESIGN.md A.4)
 	jobs = append(jobs, jobsFor(procLattice(fps, "raw", "day"), []string{"1", "0"}, devRecorder, Ld, 1)...)
 	capStates := 60000
 	if r.Thorough() {
